@@ -76,6 +76,22 @@ def edit(path, case, rng_seed):
                 if rng.random() < 0.9:
                     cur.execute("insert into truth_ephemerides (julian_date, agent_id, pos_x_km, pos_y_km, pos_z_km, vel_x_km_p_sec, vel_y_km_p_sec, vel_z_km_p_sec) values (?,?,?,?,?,?,?,?)",
                                 (jd, aid, 7000.0 + i, 0.0, 0.0, 0.0, 7.5, 0.0))
+    if case.get("dense"):
+        # the importer file is sampled more densely than the consumer steps: every epoch gets a neighbour half a second later
+        # (and one half-way to the next step) holding other states for every agent - records of OTHER epochs
+        eps = cur.execute("select julian_date, timestampISO from epochs order by julian_date").fetchall()
+        known = {e[1] for e in eps}
+        for jd, ts in eps:
+            for dt_s in (0.5, case["net"]["step"] / 2.0):
+                ts2 = (datetime.fromisoformat(ts) + timedelta(seconds=dt_s)).isoformat(timespec="microseconds")
+                if ts2 in known:
+                    continue
+                known.add(ts2)
+                jd2 = jd + dt_s / 86400.0
+                cur.execute("insert into epochs (julian_date, timestampISO) values (?, ?)", (jd2, ts2))
+                for r in cur.execute("select agent_id, pos_x_km, pos_y_km, pos_z_km, vel_x_km_p_sec, vel_y_km_p_sec, vel_z_km_p_sec from truth_ephemerides where julian_date = ?", (jd,)).fetchall():
+                    cur.execute("insert into truth_ephemerides (julian_date, agent_id, pos_x_km, pos_y_km, pos_z_km, vel_x_km_p_sec, vel_y_km_p_sec, vel_z_km_p_sec) values (?,?,?,?,?,?,?,?)",
+                                (jd2, r[0], r[1] + r[4] * dt_s, r[2] + r[5] * dt_s, r[3] + r[6] * dt_s, r[4], r[5], r[6]))
     if case["gap"] is not None:
         agent_id, k = case["gap"]
         ts = (datetime.fromisoformat(case["net"]["start"]) + timedelta(seconds=k * case["net"]["step"])).isoformat(timespec="microseconds")
@@ -163,7 +179,8 @@ def gen_case(rng):
             "split_engines": split and leave is None, "late": late, "leave": leave, "net": net, "steps": steps, "edit": edit_kind, "imported": imported, "extra_agents": extra, "gap": gap,
             "imported_obs": (imp_obs := rng.random() < 0.6), "dup_obs": imp_obs and rng.random() < 0.35, "edit_seed": rng.randrange(1 << 30),
             # the consumer writes its own output every m-th physics step (states are imported at every physics step regardless)
-            "out_mult": rng.choice([1, 1, 2, 3, 5])}
+            "out_mult": rng.choice([1, 1, 2, 3, 5]),
+            "dense": rng.random() < 0.3}
 
 
 def eval_case(ctx, case):
